@@ -226,6 +226,34 @@ pub fn run(p: &Params, rep: &mut Report) {
     if p.shard == 3 {
         super::ladder::discrete_partitions(rep, "C12", p.seed);
     }
+    if p.shard % 4 == 1 {
+        // a large regular partition (500-1100 intervals) merged with ONE interval at every alignment relative to the
+        // intervals and gaps around it (ends exactly on a start, starts exactly on an end, inside a gap, spanning
+        // several), in both argument orders
+        let k = [512usize, 513, 600, 520][(p.shard as usize / 4) % 4];
+        let big: Ivs = (0..k as u32).map(|i| (10 * i, 10 * i + 4)).collect();
+        let mid = 10 * (k as u32 / 2);
+        let mut cases = 0u64;
+        for a in [mid - 1, mid, mid + 4, mid + 5, mid + 6] {
+            for len in [0u32, 4, 5, 6, 10] {
+                let single: Ivs = vec![(a, a + len)];
+                for ps in [vec![big.clone(), single.clone()], vec![single.clone(), big.clone()]] {
+                    cases += 1;
+                    if !check_merge(rep, &ps, p.seed) {
+                        break;
+                    }
+                }
+            }
+        }
+        // and at both ends of the large partition
+        for single in [vec![(0u32, 0u32)], vec![(4, 10)], vec![(10 * k as u32 - 6, 10 * k as u32)], vec![(10 * k as u32 - 5, MAXC)], vec![(0, MAXC)]] {
+            cases += 2;
+            check_merge(rep, &[big.clone(), single.clone()], p.seed);
+            check_merge(rep, &[single, big.clone()], p.seed);
+        }
+        rep.count("large_partition_with_single_interval_merges", cases);
+        rep.eval(Some(&format!("large{}", k)));
+    }
     let mut rng = p.rng(12);
     let n = p.size(30_000, 400_000);
     for i in 0..n {
